@@ -329,7 +329,24 @@ func TestC08_EndToEnd(t *testing.T) {
 			t.Fatalf("VERIF-VIOLATION C08 end-to-end: width %d rejected by Refresh: %v", h.W, err)
 		}
 		defer log.Destroy()
-		c := context.WithValue(context.Background(), ctxKey{}, &e2eCtx{t: h.Time, s: h.Ctx, fs: ctx.Fields})
+		fs := ctx.Fields
+		if len(fs) >= 1 && rapid.Bool().Draw(t, "sharedBacking") {
+			// the hook hands out prefixes of one slice (a child scope extends its parent's fields):
+			// an earlier event got arr[:k], this event gets all of arr - and must find it untouched
+			arr := make([]log.Field, len(fs))
+			copy(arr, fs)
+			k := rapid.IntRange(0, len(fs)-1).Draw(t, "prefix")
+			pre := vk.GenFieldList(t, "prefld", 3, &st, opts())
+			if len(pre.Fields) == 0 {
+				pre.Fields = []log.Field{log.String("earlier", "event")}
+			}
+			_ = vk.Catch(func() {
+				log.Record(context.WithValue(context.Background(), ctxKey{}, &e2eCtx{t: h.Time, s: h.Ctx, fs: arr[:k]}), h.Level, e2eTag, 1, pre.Fields...)
+			})
+			fs = arr
+			vk.Class("ctx-fields-share-backing-array-with-earlier-event")
+		}
+		c := context.WithValue(context.Background(), ctxKey{}, &e2eCtx{t: h.Time, s: h.Ctx, fs: fs})
 		console.Reset()
 		_, file, ln, _ := runtime.Caller(0)
 		p := vk.Catch(func() { log.Record(c, h.Level, e2eTag, 1, fld.Fields...) })
